@@ -14,6 +14,7 @@ import contextvars
 import ctypes
 import errno
 import os
+import socket as _socket
 from collections import Counter, defaultdict
 
 import pyrtma.manager as M
@@ -85,14 +86,20 @@ class FakeConn:
         self.ok_calls = 0
         self.fail_after = fail_after  # None: never fails; k: the (k+1)-th sendall and every later one raise
 
-    def sendall(self, b):
+    block_at = None   # k: from its (k+1)-th sendall on, a NON-BLOCKING send writes part of its bytes and raises BlockingIOError
+
+    def sendall(self, b, flags=0):
         # pure recording: no operation on (possibly symbolic) field values, so it runs outside the tracer
         with NoTracing():
-            return self._sendall(b)
+            return self._sendall(b, flags)
 
-    def _sendall(self, b):
+    def _sendall(self, b, flags=0):
         if self.closed:
             raise OSError(errno.EBADF, "Bad file descriptor")
+        if flags & _socket.MSG_DONTWAIT and self.block_at is not None and self.ok_calls >= self.block_at:
+            # socket.sendall with MSG_DONTWAIT on a full send buffer: some bytes are written, then BlockingIOError
+            self.calls.append(("P", b"partial", None, None) if self.calls and self.calls[-1][0] == "H" else ("H", {"partial": True}))
+            raise BlockingIOError(errno.EAGAIN, "Resource temporarily unavailable")
         if self.fail_after is not None and self.ok_calls >= self.fail_after:
             raise ConnectionResetError(errno.ECONNRESET, "Connection reset by peer")
         self.ok_calls += 1
